@@ -33,6 +33,11 @@ pub fn generate_c01(tier: &str, rng: &mut Prng) -> Vec<Case> {
                 ops.push(Case::new(format!("sign {n} {} {} {}", hex(&ks), hex(&msg), rng.next() >> 1)));
             }
         }
+        // several keys one after the other through locals on one thread
+        for _ in 0..(if thorough { 6 } else { 1 }) {
+            let seeds: Vec<String> = (0..3).map(|_| hex(&rng.bytes(32))).collect();
+            ops.push(Case::new(format!("sign_key_after_key {n} {}", seeds.join(","))));
+        }
         let keys = key_seeds(rng, if thorough { 8 } else { 2 });
         let per_key = if thorough { 1200 } else { 60 };
         for ks in &keys {
@@ -94,6 +99,13 @@ pub fn oracle_c01(op: &[&str], out: &str) -> Verdict {
                 other => Verdict::Fail(format!("the specification's verifier does not accept the signature: {:?}", other)),
             }
         }
+        "sign_key_after_key" => {
+            if out.split(' ').all(|x| x == "true") {
+                Verdict::Pass
+            } else {
+                Verdict::Fail(format!("keys generated, used and dropped one after the other on one thread: verify results {out}"))
+            }
+        }
         "sign_check" => {
             if out.ends_with("true frac<1e-3 hyp=ok") {
                 Verdict::Pass
@@ -123,12 +135,15 @@ pub fn generate_c08(tier: &str, rng: &mut Prng) -> Vec<Case> {
         for i in 0..(if thorough { 800 } else { 40 }) {
             let ks = &keys[i % 2];
             // same message / same key / same generator seed in all combinations
-            let ml = rng.below(40) as usize;
+            // message lengths incl. those around one SHAKE-256 block of salt || message (96 + 40 = 136) and long ones
+            let lens = [0usize, 1, 95, 96, 97, 135, 136, 137, 200, 1000, 10_000];
+            let ml = if i % 4 == 1 { lens[(i / 4) % lens.len()] } else { rng.below(40) as usize };
             let msg = if i % 3 == 0 { b"fixed".to_vec() } else { rng.bytes(ml) };
             let rs = if i % 5 == 0 { 77 } else { rng.next() >> 1 };
             ops.push(Case::new(format!("sign_salt {n} {} {} {rs}", hex(ks), hex(&msg))));
         }
-        ops.push(Case::new(format!("sign_fresh {n} {} {} 8", hex(&keys[0]), if thorough { 20000 } else { 400 })));
+        // thorough, Falcon-512: enough signatures for a birthday collision in any 32-bit bottleneck of the salt's source
+        ops.push(Case::new(format!("sign_fresh {n} {} {} 8", hex(&keys[0]), if thorough { if n == 512 { 300_000 } else { 20_000 } } else { 400 })));
     }
     ops
 }
